@@ -48,23 +48,59 @@ fn hexz(v: &BigInt) -> String {
 
 struct Printer {
     generic: HashMap<String, u64>,
+    /// big literals of the current case, bound once by `let a<k> := 0x.. in` (Coq parses a 64-bit
+    /// literal slowly; each is written once per case)
+    syms: HashMap<String, usize>,
+    sym_list: Vec<String>,
+    /// plain: literals are written out (used for the byte-level comparisons of the oracle)
+    plain: bool,
 }
 impl Printer {
+    fn new(plain: bool) -> Self {
+        Printer { generic: HashMap::new(), syms: HashMap::new(), sym_list: vec![], plain }
+    }
+    /// A u64 as a Coq N: small ones literally, big ones through the case's symbol table.
+    fn num(&mut self, v: u64) -> String {
+        if v < 1000 { format!("{}", v) } else { self.sym(format!("0x{:x}", v)) }
+    }
+    fn sym(&mut self, lit: String) -> String {
+        if self.plain {
+            return lit;
+        }
+        let n = self.sym_list.len();
+        let k = *self.syms.entry(lit.clone()).or_insert_with(|| n);
+        if k == n {
+            self.sym_list.push(lit);
+        }
+        format!("a{}", k)
+    }
+    /// Wraps the body of a case in the bindings of its big literals and resets the table.
+    fn close_case(&mut self, body: String) -> String {
+        let mut s = String::with_capacity(body.len() + self.sym_list.len() * 32);
+        for (k, lit) in self.sym_list.iter().enumerate() {
+            s.push_str(&format!("let a{} := {} in\n ", k, lit));
+        }
+        s.push_str(&body);
+        self.syms.clear();
+        self.sym_list.clear();
+        s
+    }
     fn gen_id(&mut self, s: &str) -> u64 {
         let n = self.generic.len() as u64;
         *self.generic.entry(s.to_string()).or_insert(n)
     }
     fn garg(&mut self, g: &GenericArg) -> String {
         match g {
-            GenericArg::UserType(u) => format!("GUserType 0x{:x}", u.id),
-            GenericArg::Type(t) => format!("GType {}", hex(t.id)),
+            GenericArg::UserType(u) => format!("GUserType {}", self.sym(format!("0x{:x}", u.id))),
+            GenericArg::Type(t) => format!("GType {}", self.num(t.id)),
             GenericArg::Value(v) => format!("GValue {}", hexz(v)),
-            GenericArg::UserFunc(f) => format!("GUserFunc {}", hex(f.id)),
-            GenericArg::Libfunc(l) => format!("GLibfunc {}", hex(l.id)),
+            GenericArg::UserFunc(f) => format!("GUserFunc {}", self.num(f.id)),
+            GenericArg::Libfunc(l) => format!("GLibfunc {}", self.num(l.id)),
         }
     }
-    fn nlist(xs: impl Iterator<Item = u64>) -> String {
-        format!("[{}]", xs.map(hex).collect::<Vec<_>>().join(";"))
+    fn nlist(&mut self, xs: impl Iterator<Item = u64>) -> String {
+        let v: Vec<String> = xs.map(|x| self.num(x)).collect();
+        format!("[{}]", v.join(";"))
     }
     fn program(&mut self, p: &Program) -> String {
         let mut s = String::with_capacity(p.statements.len() * 40 + 1024);
@@ -85,7 +121,8 @@ impl Printer {
                 ),
             };
             let g = self.gen_id(&d.long_id.generic_id.0);
-            write!(s, "Build_type_decl {} {} [{}] {}", hex(d.id.id), g, args.join(";"), info).unwrap();
+            let id = self.num(d.id.id);
+            write!(s, "Build_type_decl {} {} [{}] {}", id, g, args.join(";"), info).unwrap();
         }
         s.push_str("]\n [");
         for (i, d) in p.libfunc_declarations.iter().enumerate() {
@@ -94,7 +131,8 @@ impl Printer {
             }
             let args: Vec<String> = d.long_id.generic_args.iter().map(|g| self.garg(g)).collect();
             let g = self.gen_id(&d.long_id.generic_id.0);
-            write!(s, "Build_libfunc_decl {} {} [{}]", hex(d.id.id), g, args.join(";")).unwrap();
+            let id = self.num(d.id.id);
+            write!(s, "Build_libfunc_decl {} {} [{}]", id, g, args.join(";")).unwrap();
         }
         s.push_str("]\n [");
         for (i, st) in p.statements.iter().enumerate() {
@@ -103,28 +141,22 @@ impl Printer {
             }
             match st {
                 GenStatement::Invocation(inv) => {
-                    let br: Vec<String> = inv
-                        .branches
-                        .iter()
-                        .map(|b| {
-                            let t = match &b.target {
-                                GenBranchTarget::Fallthrough => "Fallthrough".to_string(),
-                                GenBranchTarget::Statement(i) => format!("Statement {}", i.0),
-                            };
-                            format!("({},{})", t, Self::nlist(b.results.iter().map(|v| v.id)))
-                        })
-                        .collect();
-                    write!(
-                        s,
-                        "Invocation {} {} [{}]",
-                        hex(inv.libfunc_id.id),
-                        Self::nlist(inv.args.iter().map(|v| v.id)),
-                        br.join(";")
-                    )
-                    .unwrap();
+                    let mut br: Vec<String> = vec![];
+                    for b in &inv.branches {
+                        let t = match &b.target {
+                            GenBranchTarget::Fallthrough => "Fallthrough".to_string(),
+                            GenBranchTarget::Statement(i) => format!("Statement {}", i.0),
+                        };
+                        let r = self.nlist(b.results.iter().map(|v| v.id));
+                        br.push(format!("({},{})", t, r));
+                    }
+                    let lf = self.num(inv.libfunc_id.id);
+                    let args = self.nlist(inv.args.iter().map(|v| v.id));
+                    write!(s, "Invocation {} {} [{}]", lf, args, br.join(";")).unwrap();
                 }
                 GenStatement::Return(vs) => {
-                    write!(s, "Return {}", Self::nlist(vs.iter().map(|v| v.id))).unwrap();
+                    let v = self.nlist(vs.iter().map(|v| v.id));
+                    write!(s, "Return {}", v).unwrap();
                 }
             }
         }
@@ -133,18 +165,15 @@ impl Printer {
             if i > 0 {
                 s.push_str(";\n  ");
             }
-            let params: Vec<String> =
-                f.params.iter().map(|p| format!("({},{})", hex(p.id.id), hex(p.ty.id))).collect();
-            write!(
-                s,
-                "Build_func {} {} {} [{}] {}",
-                hex(f.id.id),
-                Self::nlist(f.signature.param_types.iter().map(|t| t.id)),
-                Self::nlist(f.signature.ret_types.iter().map(|t| t.id)),
-                params.join(";"),
-                f.entry_point.0
-            )
-            .unwrap();
+            let mut params: Vec<String> = vec![];
+            for p in &f.params {
+                let (a, b) = (self.num(p.id.id), self.num(p.ty.id));
+                params.push(format!("({},{})", a, b));
+            }
+            let id = self.num(f.id.id);
+            let pt = self.nlist(f.signature.param_types.iter().map(|t| t.id));
+            let rt = self.nlist(f.signature.ret_types.iter().map(|t| t.id));
+            write!(s, "Build_func {} {} {} [{}] {}", id, pt, rt, params.join(";"), f.entry_point.0).unwrap();
         }
         s.push_str("])");
         s
@@ -180,7 +209,15 @@ impl Sigma {
             }
         }
     }
-    fn tables(&self) -> String {
+    fn tables(&self, pr: &mut Printer) -> String {
+        let mut one = |m: &BTreeMap<u64, u64>| {
+            let v: Vec<String> = m.iter().map(|(a, b)| format!("({},{})", pr.num(*a), pr.num(*b))).collect();
+            format!("[{}]", v.join(";"))
+        };
+        let (a, b, c) = (one(&self.t), one(&self.l), one(&self.f));
+        format!("({}, {}, {})", a, b, c)
+    }
+    fn tables_plain(&self) -> String {
         let one = |m: &BTreeMap<u64, u64>| {
             format!("[{}]", m.iter().map(|(a, b)| format!("({},{})", hex(*a), hex(*b))).collect::<Vec<_>>().join(";"))
         };
@@ -516,11 +553,12 @@ fn canon_leg(corpus: &str, out: &str, thorough: bool, rng: &mut Rng, oracle: &mu
     let mut st = CanonStats::default();
     let mut files: Vec<_> = fs::read_dir(corpus).unwrap().filter_map(|e| e.ok()).map(|e| e.path()).filter(|p| p.extension().map(|x| x == "sierra").unwrap_or(false)).collect();
     files.sort();
-    let mut shards = Shards::new(out, "canon", "check_canon", "canon_case", 700_000, 150);
-    let mut pr = Printer { generic: HashMap::new() };
+    let mut shards = Shards::new(out, "canon", "check_canon", "canon_case", 350_000, 100);
+    let mut pr = Printer::new(false);
+    let mut dump = Printer::new(true);
     let mut seen = std::collections::BTreeSet::new();
-    // quick tier: every program up to 700 statements and a seeded choice of 4 larger ones
-    let quick_limit = 700usize;
+    // quick tier: every program up to 400 statements and a seeded choice of 4 larger ones
+    let quick_limit = 400usize;
     let mut large_budget = 4;
     for path in files {
         let name = path.file_stem().unwrap().to_string_lossy().to_string();
@@ -539,7 +577,7 @@ fn canon_leg(corpus: &str, out: &str, thorough: bool, rng: &mut Rng, oracle: &mu
         }
         // the program itself and one or two seeded mutants of its declaration lists
         let mut variants: Vec<(Program, String)> = vec![(p0.clone(), "orig".into())];
-        let n_mut = if p0.statements.len() <= 300 { 2 } else { 1 };
+        let n_mut = if thorough && p0.statements.len() <= 300 { 2 } else { 1 };
         for _ in 0..n_mut {
             let (m, kind) = mutate(&p0, rng);
             if kind != "none" {
@@ -561,7 +599,7 @@ fn canon_leg(corpus: &str, out: &str, thorough: bool, rng: &mut Rng, oracle: &mu
             }
             st.statements += p.statements.len();
             let e_dump = match &e {
-                Canon::Ok(c) => pr.program(c),
+                Canon::Ok(c) => dump.program(c),
                 Canon::Panic(m) => format!("panic: {m}"),
             };
             if let Canon::Panic(m) = &e {
@@ -582,7 +620,7 @@ fn canon_leg(corpus: &str, out: &str, thorough: bool, rng: &mut Rng, oracle: &mu
                 st.renamings += 1;
                 let ok = match (&e, &eq) {
                     (Canon::Ok(a), Canon::Ok(b)) => {
-                        let (da, db) = (pr.program(a), pr.program(b));
+                        let (da, db) = (dump.program(a), dump.program(b));
                         let (ta, tb) = (text(&strip_names(a)), text(&strip_names(b)));
                         let (na, nb) = (text(a), text(b));
                         if da != db {
@@ -604,14 +642,14 @@ fn canon_leg(corpus: &str, out: &str, thorough: bool, rng: &mut Rng, oracle: &mu
                 if let Some(why) = ok {
                     oracle.push(serde_json::json!({
                         "leg": "canon", "case": case_name, "renaming_kind": kind_s, "why": format!("canon(rename s p) != canon(p): {why}"),
-                        "renaming": s.tables(), "program_file": path.to_string_lossy()}));
+                        "renaming": s.tables_plain(), "program_file": path.to_string_lossy()}));
                 }
                 sigmas.push((s, q));
             }
             if let Canon::Ok(c) = &e {
                 match canon_impl(c) {
                     Canon::Ok(cc) => {
-                        let (a, b) = (pr.program(c), pr.program(&cc));
+                        let (a, b) = (dump.program(c), dump.program(&cc));
                         if wf && a != b {
                             oracle.push(serde_json::json!({"leg": "canon", "case": case_name, "why": format!("canon not idempotent: {}", first_diff(&a, &b)), "program_file": path.to_string_lossy()}));
                         }
@@ -636,19 +674,21 @@ fn canon_leg(corpus: &str, out: &str, thorough: bool, rng: &mut Rng, oracle: &mu
                 Ok(s) => s,
                 Err(m) => {
                     oracle.push(serde_json::json!({"leg": "canon", "case": case_name, "why": format!("unexpected panic of the canonical replacer: {m}")}));
+                    let _ = pr.close_case(String::new());
                     continue;
                 }
             };
             let pick = rng.below(3) as usize;
             let (s, q) = &sigmas[pick];
-            let small = p.statements.len() <= 80;
+            let small = p.statements.len() <= if thorough { 80 } else { 40 };
             let qs = if small {
                 st.renamed_printed += 1;
                 format!("(Some {})", pr.program(q))
             } else {
                 "None".to_string()
             };
-            let case = format!("({},\n {},\n {},\n {})", pr.program(&p), s.tables(), er, qs);
+            let (ps, ts) = (pr.program(&p), s.tables(&mut pr));
+            let case = pr.close_case(format!("({},\n {},\n {},\n {})", ps, ts, er, qs));
             if samples.len() < 3 && p.statements.len() <= 6 {
                 samples.push(format!("canon case {}: {}", case_name, case.replace('\n', " ")));
             }
